@@ -61,6 +61,12 @@ type Hook struct {
 	Events   []string `json:"events"`
 	Weight   int      `json:"weight"`
 	Policies []string `json:"policies,omitempty"`
+	// Raw (C12, optional): the hook document carries exactly the annotations of Res.Fields ("a:helm.sh/hook",
+	// "a:helm.sh/hook-weight", ... as raw strings chosen by the generator); BuildChart adds none.  Events /
+	// Weight / Policies are then not used to build the chart.
+	Raw bool `json:"raw,omitempty"`
+	// LogPolicies: Hook.OutputLogPolicies as Helm parsed them (observation side only).
+	LogPolicies []string `json:"log_policies,omitempty"`
 }
 
 type Flags struct {
@@ -195,6 +201,9 @@ func BuildChart(op *Op) *chart.Chart {
 		if len(h.Policies) > 0 {
 			ann["helm.sh/hook-delete-policy"] = strings.Join(h.Policies, ",")
 		}
+		if h.Raw {
+			ann = nil
+		}
 		c.Templates = append(c.Templates, &chart.File{Name: fmt.Sprintf("templates/h%02d-%s.yaml", i, strings.ToLower(h.Res.Name)), Data: []byte(resYAML(h.Res, ann))})
 	}
 	return c
@@ -240,6 +249,9 @@ func ParseHooks(hs []*rspb.Hook) []Hook {
 		}
 		for _, p := range h.DeletePolicies {
 			x.Policies = append(x.Policies, string(p))
+		}
+		for _, p := range h.OutputLogPolicies {
+			x.LogPolicies = append(x.LogPolicies, string(p))
 		}
 		out = append(out, x)
 	}
